@@ -26,6 +26,11 @@ def gen(rng, spec):
         return search.extreme_rows(rng, search.gen_case(rng, beam=rng.random() < 0.5, max_n=5, family='softmax'))
     if r < 0.15:
         return search.gen_case(rng, beam=True, max_n=6)
+    if r < 0.25:
+        # a step budget of the order of what the sentence needs: failure is legitimate only when the budget is really used up
+        case = search.gen_case(rng, max_n=4, sparse=True)
+        case['config']['max_step'] = rng.choice((1, 2, 3, 4, 5, 6, 8, 10, 12, 15, 20, 30, 50))
+        return case
     return search.gen_case(rng, max_n=7 if r < 0.5 else 5, sparse=r > 0.8)
 
 
